@@ -85,6 +85,7 @@ type XOpts struct {
 	OddNames           bool         // some field names start with a non-ASCII upper-case letter
 	OddTagValues       bool         // tag values with quotes, backslashes, blanks, colons, backticks, non-ASCII
 	ForceElemEmbed     bool         // the first top-level field is a slice/array of structs whose element embeds a pointer to a struct
+	ElemPtrs           bool         // []*struct / [2]*struct fields
 	ElemNested         bool         // element structs of slices/arrays/maps may contain struct, *struct and embedded struct fields
 	ElemUnexported     bool         // unexported fields inside the element structs of slices/arrays/maps (Pointerify keeps those)
 	DialsTags          bool
@@ -415,6 +416,14 @@ func (g *XGen) Struct(depth int) reflect.Type {
 			kind := r.Intn(4)
 			if forced && kind == 3 {
 				kind = 0
+			}
+			if !forced && g.O.ElemPtrs && r.Chance(1, 4) {
+				// a list of POINTERS to structs (nil elements occur): no transformer
+				// recurses into it, it is a leaf for every mangler
+				el = reflect.PtrTo(el)
+				if kind == 3 {
+					kind = 0
+				}
 			}
 			switch kind {
 			case 0, 1:
